@@ -371,7 +371,7 @@ func checkOnce(t *T, prop func(*T)) (err *testError) {
 	}
 	defer func() {
 		err = panicToError(recover(), 3)
-		if failed := t.resetFailed(); failed != "" && (err == nil || err.isInvalidData()) {
+		if failed, ok := t.resetFailed(); ok && (err == nil || err.isInvalidData()) {
 			// non-fatal failure was signalled by a cleanup function, or was followed by skipping the test case
 			err = &testError{data: failed, traceback: lateFailureTraceback}
 		}
@@ -527,6 +527,7 @@ type T struct {
 	refDraws []any
 	mu       sync.RWMutex
 	failed   stopTest
+	isFailed bool // failed can be empty: t.Error() or t.Errorf("") fail the test case, too
 }
 
 func newT(tb tb, s bitStream, tbLog bool, rawLog *log.Logger, refDraws ...any) *T {
@@ -775,7 +776,7 @@ func (t *T) Failed() bool {
 	t.mu.RLock()
 	defer t.mu.RUnlock()
 
-	return t.failed != ""
+	return t.isFailed
 }
 
 func (t *T) skip(msg string) {
@@ -787,27 +788,28 @@ func (t *T) fail(now bool, msg string) {
 	defer t.mu.Unlock()
 
 	t.failed = stopTest(msg)
+	t.isFailed = true
 	if now {
 		panic(t.failed)
 	}
 }
 
 // resetFailed clears the non-fatal failure of the current test case (if any) and returns it.
-func (t *T) resetFailed() stopTest {
+func (t *T) resetFailed() (stopTest, bool) {
 	t.mu.Lock()
 	defer t.mu.Unlock()
 
-	failed := t.failed
-	t.failed = ""
+	failed, isFailed := t.failed, t.isFailed
+	t.failed, t.isFailed = "", false
 
-	return failed
+	return failed, isFailed
 }
 
 func (t *T) failOnError() {
 	t.mu.RLock()
 	defer t.mu.RUnlock()
 
-	if t.failed != "" {
+	if t.isFailed {
 		panic(t.failed)
 	}
 }
